@@ -634,6 +634,7 @@ impl World {
 			"tamper" => "C05",
 			"deadlines" => "C08",
 			"asyncpersist" => "C09",
+			"chainstyle" => "C07",
 			_ => {
 				if forwarder {
 					"C02"
